@@ -223,6 +223,76 @@ func GenCancelWorld(ch *Choices, thorough bool) *IntegWorld {
 	return w
 }
 
+// GenCondErrWorld: the cancellation comes from inside the run, in the middle of it. A nested
+// pipeline (stage "n", started once its dependency finished) contains a stage whose condition
+// cannot be evaluated; when the nested pipeline is scheduled the scheduler cancels the whole run
+// while other stages - outside and inside the nested pipeline - have long commands in flight.
+func GenCondErrWorld(ch *Choices) *IntegWorld {
+	w := &IntegWorld{Plans: map[string]*ExecPlan{}, Format: "raw"}
+	g := &GraphSpec{Name: "root"}
+	addTask := func(name string, minMS, spanMS int) {
+		t := &TaskSpec{Name: name, NCmd: ch.Range(1, 2, "ncmd")}
+		if ch.Bool(1, 4, "has-before") {
+			t.NBefore = 1
+		}
+		if ch.Bool(1, 4, "has-after") {
+			t.NAfter = 1
+		}
+		w.Tasks = append(w.Tasks, t)
+		for _, p := range taskPositions(t) {
+			pl := &ExecPlan{}
+			if p.block == "cmd" {
+				pl.DurMS = minMS + ch.Choose(spanMS, "dur")
+			}
+			if ch.Bool(1, 5, "ignores-sigint") {
+				pl.Intr = "later"
+				pl.IntrMS = []int{1, 300}[ch.Choose(2, "kill-delay")]
+			}
+			w.Plans[execID(name, p.block, p.idx, p.v)] = pl
+		}
+	}
+	ny := ch.Range(1, 3, "n-long-running")
+	for i := 0; i < ny; i++ {
+		nm := fmt.Sprintf("y%d", i)
+		addTask(nm, 1500, 4000)
+		g.Stages = append(g.Stages, &StageSpec{Name: nm, Allow: ch.Bool(1, 5, "stage-allow")})
+	}
+	n := &StageSpec{Name: "n"}
+	if ch.Bool(3, 4, "nested-after-a-stage") {
+		addTask("r0", 0, 400)
+		g.Stages = append(g.Stages, &StageSpec{Name: "r0"})
+		n.Deps = []string{"r0"}
+	}
+	inner := &GraphSpec{Name: "inner"}
+	addTask("n.m", 0, 100)
+	m := &StageSpec{Name: "n.m", Cond: "missing"}
+	var in []*StageSpec
+	nx := ch.Range(0, 2, "n-inner")
+	for i := 0; i < nx; i++ {
+		nm := fmt.Sprintf("n.x%d", i)
+		addTask(nm, 1000, 3000)
+		in = append(in, &StageSpec{Name: nm})
+	}
+	pos := ch.Choose(len(in)+1, "missing-position")
+	inner.Stages = append(inner.Stages, in[:pos]...)
+	inner.Stages = append(inner.Stages, m)
+	inner.Stages = append(inner.Stages, in[pos:]...)
+	n.Nested = inner
+	g.Stages = append(g.Stages, n)
+	if ch.Bool(1, 2, "stage-after-nested") {
+		addTask("z", 0, 100)
+		g.Stages = append(g.Stages, &StageSpec{Name: "z", Deps: []string{"n"}})
+	}
+	// declaration order is seeded too
+	for i := len(g.Stages) - 1; i > 0; i-- {
+		j := ch.Choose(i+1, "declaration-order")
+		g.Stages[i], g.Stages[j] = g.Stages[j], g.Stages[i]
+	}
+	w.Graph = g
+	w.Drivers = []DriverSpec{{Kind: "pipeline", Target: "root"}}
+	return w
+}
+
 func runFaultJob(c *Ctl, job *Job, idx int, res *RunResult) {
 	thorough := job.Tier == "thorough"
 	prof := defaultIntegProfile()
@@ -264,6 +334,20 @@ func runFaultJob(c *Ctl, job *Job, idx int, res *RunResult) {
 		}
 		prof.Checks["C12"] = true
 		res.WorldIdx = world
+		if world%6 == 4 {
+			// the cancellation originates inside the run: a condition error in a nested pipeline
+			// that starts while other stages have commands in flight. The instant is the release
+			// of the nesting stage: its first scheduling pass runs straight away (no yield points
+			// are armed in between in these runs).
+			reseed(0x12000003, idx)
+			w = GenCondErrWorld(c.Ch)
+			prof.CancelAt, prof.WFault = -1, 0
+			prof.WMidpass, prof.LogYield = 0, false
+			prof.PreemptPct = 0
+			prof.InternalCancelStage = "n"
+			prof.CancelVia = "condition-error"
+			c.Count("c12_condition_error_worlds")
+		}
 		res.Sample = map[string]interface{}{"world": w.Summary(), "cancel_at_step": variant, "via": prof.CancelVia, "cancels": w.NFaults}
 	case "c08":
 		w = GenOverrideWorld(c.Ch, thorough)
@@ -396,6 +480,11 @@ func runFaultJob(c *Ctl, job *Job, idx int, res *RunResult) {
 		if (idx/3)%3 == 1 {
 			// a third of the worlds also preempt goroutines at function entries inside taskctl's code
 			prof.PreemptPct, prof.PreemptDepth = 12, 14
+			if job.Profile == "c19" && w.Format == "cockpit" {
+				// the way from a task's start to the spinner's methods (which now take part in the
+				// simulation) is long: compile, open the output, create and start the spinner
+				prof.PreemptPct, prof.PreemptDepth = 40, 80
+			}
 		}
 	}
 	e := RunIntegWorld(c, prof, w, res)
